@@ -384,11 +384,11 @@ theorem fromExtendedKey_ok (H : Bytes → Bytes) (c : CurveT) (sch : Scheme) (kv
           rw [if_pos rfl]
           exact ⟨rfl, rfl⟩
 
-/-- error kinds of `FromExtendedKey`: those of the parser, plus the third-party exception of a
-degenerate (identity) Kholaw/Monero public key. -/
+/-- error kinds of `FromExtendedKey`: those of the parser (a degenerate Kholaw key whose public key
+would be the identity point is refused with the value error). -/
 theorem fromExtendedKey_error_kinds (H : Bytes → Bytes) (c : CurveT) (sch : Scheme) (kv : KeyNetVer)
     (s : List Char) (e : Err) (h : fromExtendedKey H c sch kv s = .error e) :
-    e = .key ∨ e = .value ∨ e = .checksum ∨ e = .thirdParty := by
+    e = .key ∨ e = .value ∨ e = .checksum := by
   rw [XK.fromExtendedKey_eq] at h
   cases hd : deserializeKey H kv s with
   | error e' =>
@@ -412,7 +412,7 @@ theorem fromExtendedKey_error_kinds (H : Bytes → Bytes) (c : CurveT) (sch : Sc
         · exact Or.inl (Except.error.inj h).symm
         · split at h
           · cases h
-          · exact Or.inr (Or.inr (Or.inr (Except.error.inj h).symm))
+          · exact Or.inr (Or.inl (Except.error.inj h).symm)
 
 /-! ### the library's instance: `H` = double SHA-256 -/
 
